@@ -6,11 +6,12 @@
 (* and, when EMIT=1, prints each case with the outcome the specification   *)
 (* predicts, for replay in the real code (spec -> code).                   *)
 (***************************************************************************)
-EXTENDS Universe, Json, IOUtils
+EXTENDS Universe, JsonSchema, Json, IOUtils
 
 CONSTANTS Tier,       \* "d0" | "d1" | "d2" | "obj" | "u": which slice of the type universe
           Coerce,     \* BOOLEAN: is coercion part of the option space of this run
-          Deviations  \* named deviations of the implementation-shaped layer (negative checks)
+          Deviations, \* named deviations of the implementation-shaped layer (negative checks)
+          SchemaGaps  \* known design gaps of the schema builder excluded from SchemaAgrees
 VARIABLES T, O, d, res, phase
 vars == <<T, O, d, res, phase>>
 
@@ -41,6 +42,49 @@ HasObj(t) == CASE t.k = "obj" -> TRUE
                [] OTHER -> FALSE
 OptsFor(t) == IF HasObj(t) THEN Opts ELSE {Opt(FALSE, FALSE, c, "id") : c \in (IF Coerce THEN BOOLEAN ELSE {FALSE})}
 
+\* C06: the schema the builder emits for T accepts exactly the conforming data, on the common
+\* semantic domain (no integer-valued float: `integer` accepts 1.0 in JSON Schema, deserialize(int, 1.0) does not)
+RECURSIVE HasIntFloat(_)
+HasIntFloat(x) == CASE x.k = "float" -> x.h % 2 = 0
+                    [] x.k = "arr" -> \E i \in DOMAIN x.a : HasIntFloat(x.a[i])
+                    [] x.k = "obj" -> \E i \in DOMAIN x.o : HasIntFloat(x.o[i][2])
+                    [] OTHER -> FALSE
+SchemaAccepts == Validates(Ctx(O), "d", SchemaOf(Ctx(O), "d", T, <<>>, {}), d)
+\* fall_back_on_default (option or metadata) is a deserialization-only leniency that no schema
+\* option mirrors: outside the "same options" of the property
+RECURSIVE UsesFbd(_, _)
+UsesFbd(t, seen) ==
+  CASE t.k = "obj" -> t.cls \notin seen /\ \E i \in DOMAIN UClasses[t.cls].fields :
+                          UClasses[t.cls].fields[i].fbd \/ UsesFbd(UClasses[t.cls].fields[i].type, seen \cup {t.cls})
+    [] t.k = "newtype" -> UsesFbd(t.sup, seen)
+    [] t.k = "annot" -> UsesFbd(t.t, seen)
+    [] t.k = "coll"  -> UsesFbd(t.e, seen)
+    [] t.k = "tuple" -> \E i \in DOMAIN t.es : UsesFbd(t.es[i], seen)
+    [] t.k = "map"   -> UsesFbd(t.vt, seen)
+    [] t.k \in {"union", "dunion"} -> \E i \in DOMAIN t.alts : UsesFbd(t.alts[i], seen)
+    [] OTHER -> FALSE
+\* known design gaps between the schema builder and the data model (each one a KNOWN FINDING whose
+\* negative check is SchemaAgrees with the gap removed from SchemaGaps)
+RECURSIVE UsesFeature(_, _, _)
+UsesFeature(t, feat, seen) ==
+  CASE t.k = "obj" ->
+         /\ t.cls \notin seen
+         /\ \/ \E i \in DOMAIN UClasses[t.cls].fields :
+                  LET f == UClasses[t.cls].fields[i] IN
+                  \/ feat = "flattened" /\ f.flat
+                  \/ UsesFeature(f.type, feat, seen \cup {t.cls})
+    [] t.k = "newtype" -> UsesFeature(t.sup, feat, seen)
+    [] t.k = "annot" -> UsesFeature(t.t, feat, seen)
+    [] t.k = "coll"  -> UsesFeature(t.e, feat, seen)
+    [] t.k = "tuple" -> \E i \in DOMAIN t.es : UsesFeature(t.es[i], feat, seen)
+    [] t.k = "map"   -> (feat = "mapkeys" /\ t.kt # TPrim("str")) \/ UsesFeature(t.vt, feat, seen)
+    [] t.k = "union" -> \E i \in DOMAIN t.alts : UsesFeature(t.alts[i], feat, seen)
+    [] t.k = "dunion" -> feat = "discriminated" \/ \E i \in DOMAIN t.alts : UsesFeature(t.alts[i], feat, seen)
+    [] OTHER -> FALSE
+InSchemaDomain == /\ ~O.coerce /\ ~O.fbd /\ ~UsesFbd(T, {}) /\ ~HasIntFloat(d)
+                  /\ \A g \in SchemaGaps : ~UsesFeature(T, g, {})
+SchemaAgrees == (phase = "done" /\ InSchemaDomain /\ ~IsUnspec(res)) => (SchemaAccepts = res.ok)
+
 Init == /\ T \in Types
         /\ O \in OptsFor(T)
         /\ d = DNull /\ res = Ok(DNull) /\ phase = "type"
@@ -55,7 +99,15 @@ Run == /\ phase = "data"
        /\ phase' = "done"
        /\ UNCHANGED <<T, O, d>>
        /\ Emit => PrintT(ToJson([type |-> T, opts |-> O, data |-> d, expect |-> res',
-                                 ambig |-> Ambig(Ctx(O), T, {})]))
+                                 ambig |-> Ambig(Ctx(O), T, {}),
+                                 \* C06: is the case in the common domain, which known gaps does the type
+                                 \* touch, does the modelled schema accept the datum
+                                 sdom |-> (~O.coerce /\ ~O.fbd /\ ~UsesFbd(T, {}) /\ ~HasIntFloat(d)),
+                                 gaps |-> {g \in {"flattened", "mapkeys", "discriminated"} : UsesFeature(T, g, {})},
+                                 saccept |-> Validates(Ctx(O), "d", SchemaOf(Ctx(O), "d", T, <<>>, {}), d),
+                                 \* ... and with uniqueItems enforced for set-typed positions too (what a validator does)
+                                 saccept_u |-> LET c2 == Ctx([O EXCEPT !.setuniq = TRUE]) IN
+                                               Validates(c2, "d", SchemaOf(c2, "d", T, <<>>, {}), d)]))
 
 Next == PickData \/ Run
 Spec == Init /\ [][Next]_vars
